@@ -591,6 +591,11 @@ func VerifyEvidence(doc *document.Document, evidence *document.ChipAuthEvidence)
 	if len(evidence.SmSsc) > 0 {
 		sscInit.Sub(new(big.Int).SetBytes(evidence.SmSsc), big.NewInt(1))
 	}
+	// NB the captured SSC is the value after the response was decoded, so it is at least 1 and
+	//    must fit the SSC of the cipher (FillBytes would otherwise panic, or silently use |-1|)
+	if sscInit.Sign() < 0 || len(sscInit.Bytes()) > len(sm.SSC()) {
+		return nil, fmt.Errorf("[VerifyEvidence] SmSsc is out of range")
+	}
 	ssc := make([]byte, len(sm.SSC()))
 	sscInit.FillBytes(ssc)
 	if err = sm.SetSSC(ssc); err != nil {
